@@ -277,6 +277,7 @@ def run(ctx):
     nsites = 0
     matcher = ReviewedMatcher('C19', PANIC_REVIEWED, {short_fn(fn_label(b)) for b in scope})
     ctx.panic_matcher = matcher
+    matcher.site_kinds = {(short_fn(fn_label(b_)), k_) for b_ in scope for k_, _, _, _ in panic_sites(b_)}
     for b in scope:
         ctx.touched(b)
         fl = fn_label(b)
@@ -456,12 +457,24 @@ def name_index_rule(ctx, scope):
             finds = [c for c in io.calls if strip_generics(cname(c)).endswith(('str>::rfind', 'str>::find', 'str::rfind', 'str::find'))]
             il = op_place(iop)
             muts = [(mb, mt) for mb, mt in b.calls() if strip_generics(cname(mt)).endswith(STRING_MUTATORS) and abb in b.reachable_from(mb)]
+            # (the index may reach the aggregate through a binding: `let idx = match .. { .. => None, .. }; Name { idx, .. }`)
+            ils = {il['l']} if il is not None else set()
+            grew_ = True
+            while grew_:
+                grew_ = False
+                for l_ in list(ils):
+                    for d_ in b.defs().get(l_, []):
+                        if d_[2] == 'assign' and not d_[4].get('p') and d_[3]['k'] == 'use':
+                            sp_ = op_place(d_[3]['op'])
+                            if sp_ is not None and not sp_.get('p') and sp_['l'] not in ils:
+                                ils.add(sp_['l'])
+                                grew_ = True
             for mb, mt in muts:
                 # after this edit, on the way to the aggregate, the index local is overwritten with None
                 resets = []
                 for xb in b.reachable_from(b.term(mb)['target']):
                     for st in b.stmts(xb):
-                        if 'assign' in st and il is not None and st['assign'].get('l') == il['l'] and not st['assign'].get('p') and st['rv']['k'] == 'agg' and \
+                        if 'assign' in st and il is not None and st['assign'].get('l') in ils and not st['assign'].get('p') and st['rv']['k'] == 'agg' and \
                                 st['rv'].get('adt') == 'core::option::Option' and st['rv'].get('variant') == 'None':
                             resets.append(xb)
                 good = bool(resets) and must_pass(b, b.term(mb)['target'], [abb], resets)
